@@ -36,7 +36,7 @@ def main():
     res = {'property': pid, 'n': n, 'facts': {}}
     try:
         build_demo = ('g++ -std=gnu++20 -O0 -g -I. -ICompiler/include %s Compiler/src/*.cpp Compiler/src/ParserGenerator/*.cpp '
-                      '-x c++ Compiler/src/lex.yy.c -x none VM/src/*.cpp -o %s/demo_bin' % (demo, wt))
+                      '-x c++ Compiler/src/lex.yy.c -x none VM/src/*.cpp -pthread -o %s/demo_bin' % (demo, wt))
         rc, out = sh(build_demo, cwd=wt)
         if rc != 0:
             res['facts']['demo_builds_clean'] = False
